@@ -819,6 +819,34 @@ def s_fn_decl(c):
     return t + use
 
 
+def s_jump_through_finally(c):
+    """return / break / continue to outer labels from inside a loop / switch / labelled block that has a real runtime
+    environment open (captured let/const, catch binding), nested in one or two try-finally levels whose finally block
+    declares and captures its own let"""
+    r = c.rng
+    c.f("jump-through-scoped-finally")
+    L = c.fresh("L")
+    i, v, z, z2, e = c.fresh("i"), c.fresh(), c.fresh(), c.fresh(), c.fresh("e")
+    jumps = ["break %s;" % L, "continue %s;" % L]
+    if c.fn is not None:
+        jumps += ["return %s;" % v, "return;", "return %s;" % v]
+    j = r.choice(jumps)
+    guard = "if (%s) " % expr(c, 1) if r.random() < 0.6 else ""
+    inner = pick(r, [
+        (3, "for (let %s = 0; %s < 2; %s++) { fns.push(() => %s); let %s = %s; fns.push(() => %s); %s%s }" % (i, i, i, i, v, i, v, guard, j)),
+        (2, "for (const %s of [1, 2]) { let %s = %s; fns.push(() => %s + %s); %s%s }" % (i, v, i, v, i, guard, j)),
+        (2, "{ let %s = 0; while (%s++ < 2) { let %s = %s; fns.push(() => %s); %s%s } }" % (i, i, v, i, v, guard, j)),
+        (2, "switch (1) { case 1: let %s = 1; fns.push(() => %s); %s%s }" % (v, v, guard, j)),
+        (2, "{ let %s = 2; fns.push(() => %s); %s%s }" % (v, v, guard, j)),
+        (2, "try { throw 1 } catch (%s) { let %s = %s; fns.push(() => %s + %s); %s%s }" % (e, v, e, v, e, guard, j)),
+    ])
+    fin = "finally { let %s = 1; fns.push(() => %s); }" % (z, z)
+    body = "try { " + inner + " } " + (("catch (%s) { } " % c.fresh("e")) if r.random() < 0.4 else "") + fin
+    if r.random() < 0.5:
+        body = "try { " + body + " } finally { let %s = 2; fns.push(() => %s); }" % (z2, z2)
+    return "%s: for (let %s = 0; %s < 2; %s++) { %s }" % (L, c.fresh("o"), "o%d" % c.uid, "o%d" % c.uid, body)
+
+
 def s_class_decl(c):
     n = c.fresh("Cd")
     c.locals[-1].append(n)
@@ -844,6 +872,7 @@ def stmt(c):
             (1.2, lambda: block(c)),
             (1.5, lambda: s_fn_decl(c)),
             (0.8, lambda: s_class_decl(c)),
+            (0.7, lambda: s_jump_through_finally(c)),
         ]
         strict_fn = False
         if not strict_fn:
